@@ -235,6 +235,8 @@ def expand(shard):
     for history in histories:
         base, err = build(budget, config, history)
         assert err is None
+        if not base.conn.builder._pending_commands:
+            close_probe(budget, config, history, part)
         for ev in events_for(base):
             h2 = list(history) + [ev]
             w, err = build(budget, config, h2)
@@ -277,6 +279,36 @@ def expand(shard):
             succ.append((key(w), h2))
     part["_succ"] = succ
     return part
+
+
+def close_probe(budget, config, history, part) -> None:
+    """Closing the connection in a state with nothing pending: the controller releases every qubit of the application and
+    the SDK forgets every handle (no handle stays usable for an application that no longer exists)."""
+    w, err = build(budget, config, history)
+    if err is not None or w.conn.builder._pending_commands:
+        return
+    held = list(w.live)
+    case = {"budget": budget, "config": config, "history": [list(e) for e in history], "then": "close"}
+    part["evals"] += 1
+    try:
+        w.conn.close()
+    except (simctl.Blocked, simctl.Horizon) as exc:
+        add_violation(part, "after-close/blocks", f"{config}, budget {budget}: close() does not finish: {exc}", case)
+        return
+    except Exception as exc:
+        _guard(exc)
+        add_violation(part, f"after-close/raises/{type(exc).__name__}", f"{config}, budget {budget}: close() raises {type(exc).__name__}: "
+                      f"{str(exc).splitlines()[0][:160] if str(exc) else ''}", case)
+        return
+    active = sorted(q.qubit_id for q in w.conn.active_qubits)
+    usable = sorted(q.qubit_id for q in held if q.active)
+    um = w.ctrl.executor._qubit_unit_modules.get(w.conn.app_id)
+    alloc = [] if um is None else [i for i, ph in enumerate(um) if ph is not None]
+    if active or usable or alloc:
+        add_violation(part, "after-close/handles-or-qubits-survive", f"{config}, budget {budget}: after close() with {len(held)} live "
+                      f"qubit(s) conn.active_qubits ids {active}, handles still active {usable}, controller still has {alloc} allocated", case)
+    else:
+        count(part, "close-agrees")
 
 
 def _blame(history, i) -> str:
@@ -376,6 +408,44 @@ def shard_coexist(shard):
             _guard(exc)
             add_violation(part, f"coexisting-connections/{classify(exc)}", f"{config}: {type(exc).__name__}: "
                           f"{str(exc).splitlines()[0][:160] if str(exc) else ''}", case)
+    # constructs that stay open while the other connection builds: EPR contexts of the two connections nested in each other
+    for ka, kb, order in [(x, y, o) for x in ("create_context", "create_context_seq") for y in ("recv_context", "recv_context_seq")
+                          for o in ("a-outside", "b-outside")]:
+        case = {"budget": 3, "config": config, "coexist": f"nested/{ka}/{kb}/{order}"}
+        part["evals"] += 1
+        part["distinct"] += 1
+        try:
+            wa = World(3, config)
+            wb = World(3, config, reset=False, app_name="charlie")
+            outer, inner = ((wa, ka), (wb, kb)) if order == "a-outside" else ((wb, kb), (wa, ka))
+
+            def ctx_of(w, k):
+                f = w.epr.create_context if k.startswith("create") else w.epr.recv_context
+                # (one pair on NV hardware: non-sequential contexts for two pairs are an open finding there, see known_findings.txt)
+                return f(number=2 if config == "generic" else 1, sequential=k.endswith("_seq"))
+            with ctx_of(*outer) as (q1, _p1):
+                q1.H()
+                with ctx_of(*inner) as (q2, _p2):
+                    q2.H()
+                    q2.measure()
+                q1.measure()
+            bad = False
+            for who, x in (("first", wa), ("second", wb)):
+                x.conn.flush()
+                alloc = x.allocated()
+                active = sorted(q.qubit_id for q in x.conn.active_qubits)
+                if active != alloc:
+                    add_violation(part, f"coexisting-connections/{who}-disagrees", f"{config}: EPR contexts of two connections nested "
+                                  f"({ka} / {kb}, {order}): the {who} one has active ids {active}, its controller allocated {alloc}", case)
+                    bad = True
+            if not bad:
+                count(part, "coexist-agrees")
+        except (simctl.Blocked, simctl.Horizon) as exc:
+            add_violation(part, "coexisting-connections/blocks", f"{config}: {type(exc).__name__}: {exc}", case)
+        except Exception as exc:
+            _guard(exc)
+            add_violation(part, f"coexisting-connections/{classify(exc)}", f"{config}: {type(exc).__name__}: "
+                          f"{str(exc).splitlines()[0][:160] if str(exc) else ''}", case)
     return part
 
 
@@ -409,7 +479,7 @@ def run(ctx):
             if left:
                 ctx.total["caps"].append(f"{config}/flushed budget {budget}: graph not closed within depth 60")
     ctx.pmap(shard_coexist, [("coexist", c) for c in CONFIGS])
-    ctx.require("coexist-agrees", 3)
+    ctx.require("coexist-agrees", 8)
     ctx.exhaustive = True
     ctx.total["samples"].append({"budget": 3, "config": "nv", "history": [["new"], ["create_keep", 1], ["flush"], ["measure", 0], ["flush"]]})
     for k in ("flush", "new", "gate", "cnot", "meas_inplace", "measure", "free", "create_keep", "recv_keep", "create_seq_post",
@@ -417,6 +487,7 @@ def run(ctx):
               "recv_keep_seq"):
         ctx.require(f"event/{k}", 1)
     ctx.require("flush-agrees", 50)
+    ctx.require("close-agrees", 50)
 
 
 def replay(case, part):
@@ -424,6 +495,9 @@ def replay(case, part):
         part["violations"].extend(shard_coexist(("coexist", case["config"]))["violations"])
         return
     h = [tuple(e) for e in case["history"]]
+    if case.get("then") == "close":
+        close_probe(case["budget"], case["config"], h, part)
+        return
     p = expand((case["budget"], case["config"], [h[:-1]]))
     for v in p["violations"]:
         if v["case"]["history"] == case["history"]:
